@@ -153,7 +153,7 @@ Print Assumptions C05_ctx_error_means_cancel.
 (* The executable specification used on the implementation's observations holds of the model. *)
 Theorem C05_spec_sound : forall cfg g er,
   reachable cfg g -> eng g = Some er ->
-  spec_outcome_b (er_fails er) (er_cancelled er) (er_res er) = true.
+  spec_outcome_b (er_fails er) (er_cancelled er) (forallb front_is_nil (pools g)) (er_res er) = true.
 Proof. exact spec_outcome_holds. Qed.
 Print Assumptions C05_spec_sound.
 
